@@ -518,6 +518,11 @@ def run_leaders(ctx, algs):
 
 Fr = fractions.Fraction
 RUN_ALGS = ["OMOPSO", "SMPSO"]
+# Before the repair e5e75bc PSOGA.run gave a GA child the feature dictionary of the particle it was made from
+# (`offspring.features = selected.features`); update_particle_best(offsprings) then overwrote that particle's personal best with the
+# child's position, sometimes with a position the old best dominates (finding C18-psoga-shared-features).  Every particle must
+# leave update_particle_best with its old best or its own new position.
+PSOGA_SHARED_FEATURES_IS_VIOLATION = True
 PHASES = ["update_velocity", "update_position", "turbulence", "evaluate", "update_particle_best", "update_global_best"]
 
 
@@ -619,7 +624,8 @@ def record_swarm(cfg):
 
     for name in PHASES:
         wrap_phase(name)
-    orig_select = a.selector.select
+    copier = a.offspring_selector if cfg["algo"] == "PSOGA" else a.selector       # the CopySelector of the loop
+    orig_select = copier.select
 
     def select(individuals):
         rec = {"ev": {}, "order": [], "draws": [], "parents": [snap(q) for q in individuals],
@@ -627,7 +633,7 @@ def record_swarm(cfg):
         recs.append(rec)
         st["cur"] = rec
         return orig_select(individuals)
-    a.selector.select = select
+    copier.select = select
     orig_leader, orig_khi, orig_w = a.select_leader, a.khi, a.inertia_weight
 
     def select_leader():
@@ -762,7 +768,8 @@ def draws_of(rr, rec):
             for r1, r2 in ((rs[0], rs[1]), (rs[1], rs[0])):
                 for c1, c2 in ((cs[0], cs[1]), (cs[1], cs[0])):
                     try:
-                        pred = [clampf(kh * (ws[i] * x[i] + c1 * r1 * (pb[i] - x[i]) + c2 * r2 * (g[i] - x[i])),
+                        pred = [clampf((kh * x[i] + c1 * r1 * (pb[i] - x[i]) + c2 * r2 * (g[i] - x[i])) if cfg["algo"] == "PSOGA" else
+                                       kh * (ws[i] * x[i] + c1 * r1 * (pb[i] - x[i]) + c2 * r2 * (g[i] - x[i])),
                                        cfg["bounds"][i][1], cfg["bounds"][i][0]) for i in range(len(x))]
                     except IndexError:
                         continue
@@ -816,10 +823,10 @@ def s_prepare(rr):
     rr["eps"] = rv(eps_of(rr["a"].leaders))
     rr["epsA"] = rv(eps_of(getattr(rr["a"], "archive", None)))
     rr["box"] = box_s(rr["cfg"])
-    # two different evaluated positions closer than the comparison band whose stored costs differ: the model, which computes
-    # positions exactly, cannot tell which of the two a position is (seen in boxes of width 1e-6: neighbours one ulp apart)
+    # two different evaluated positions a few ulps apart (closer than 1e-12 relative) whose stored costs differ: the model, which
+    # computes positions exactly, cannot tell which of the two a position is (seen in boxes of width 1e-6: neighbours one ulp apart)
     ok = [(v, [float(t) for t in ind.costs_signed[:-1]]) for ind, v, k, c in p.calls if k == "o"]
-    rr["ambiguous"] = any(v1 != v2 and c1 != c2 and len(v1) == len(v2) and all(close(a, b) for a, b in zip(v1, v2))
+    rr["ambiguous"] = any(v1 != v2 and c1 != c2 and len(v1) == len(v2) and all(close(a, b, rel=1e-12, abs_=0.0) for a, b in zip(v1, v2))
                           for i, (v1, c1) in enumerate(ok) for v2, c2 in ok[i + 1:])
 
 
@@ -860,10 +867,11 @@ def run_clauses(rr):
     tags = {}
     for i in p.individuals:
         tags[i.population_id] = tags.get(i.population_id, 0) + 1
-    if tags != {t: N for t in range(G + 1)}:
+    psoga = cfg["algo"] == "PSOGA"       # its swarm grows by two per generation (not claimed by the property)
+    if not psoga and tags != {t: N for t in range(G + 1)}:
         out.append("generations recorded as {tag: count} = %r instead of tags 0..%d with %d designs each" % (tags, G, N))
     ok = sum(1 for c in p.calls if c[2] == "o")
-    if ok != N * (G + 1):
+    if not psoga and ok != N * (G + 1):
         out.append("%d successful evaluations instead of N*(G+1) = %d" % (ok, N * (G + 1)))
     for it, rec in enumerate([rr["init"]] + rr["recs"]):
         g = it  # generation number
@@ -881,7 +889,7 @@ def run_clauses(rr):
                     break
             ev_out, pb_out = rec["ev"].get("evaluate:out"), rec["ev"].get("update_particle_best:out")
             ref = {id(s["obj"]): s for s in (pb_out or rec["ev"].get("update_global_best:in") or [])}
-            for s in ev_out or []:
+            for s in ([] if psoga else ev_out or []):
                 t = ref.get(id(s["obj"]))
                 if t is None or not s["cs"] or not s["bc"] or not t["bc"]:
                     continue
@@ -965,6 +973,45 @@ def compare_leaders(model, real_snaps):
         sorted(tuple(s["cs"]) for s in real_snaps), sorted(tuple(c + [m]) for c, m, _ in model))
 
 
+def compare_flight(head, alg, bounds, k, sin, svel, spos, g, mv, mx, mpv, rr):
+    """update_velocity and update_position of one particle against the model (phases 1 and 2)"""
+    x0, pb0 = sin["x"], sin["bv"] or []
+    # 1. velocity
+    rvv = svel["v"]
+    if len(rvv) != len(mv) or any(not vclose(a, float(b), x0[i], pb0[i] if i < len(pb0) else 0.0, g[i] if i < len(g) else 0.0, bounds[i])
+                                  for i, (a, b) in enumerate(zip(rvv, mv))):
+        return ("step-velocity", head + "particle %d at %r (personal best %r, leader %r) got velocity %r from update_velocity; the model "
+                "(%s with the recorded draws, clamped to +-(ub-lb)/2) gives %r" % (
+                    k, x0, pb0, g, rvv, "khi*x + c1*r1*(pbest-x) + c2*r2*(leader-x)" if alg == "PSOGA" else
+                    "khi*(w*x + c1*r1*(pbest-x) + c2*r2*(leader-x))", [float(t) for t in mv]))
+    for i, (lb, ub) in enumerate(bounds):
+        if i < len(rvv) and not abs(rvv[i]) <= (ub - lb) / 2.0 * (1 + 1e-12):
+            return ("step-velocity-band", head + "particle %d: velocity component %d = %r after update_velocity exceeds half the range (ub-lb)/2 = %r" % (
+                k, i, rvv[i], (ub - lb) / 2.0))
+    # 2. position
+    zs = zones_of(x0, rvv, bounds)
+    rx, rpv = spos["x"], spos["v"]
+    bad = len(rx) != len(mx)
+    for i in range(min(len(rx), len(mx), len(bounds))):
+        lb, ub = bounds[i]
+        z = zs[i]
+        if z == "above":
+            okx, okv = rx[i] == ub, close(rpv[i], float(mpv[i]))
+        elif z == "below":
+            okx, okv = rx[i] == lb, close(rpv[i], float(mpv[i]))
+        elif z == "near":
+            okx, okv = pclose(rx[i], mx[i], bounds[i]), True
+            rr["near"] = rr.get("near", 0) + 1
+        else:
+            okx, okv = pclose(rx[i], mx[i], bounds[i]), rpv[i] == rvv[i]
+        bad = bad or not okx or not okv or not (lb <= rx[i] <= ub)
+    if bad:
+        return ("step-position", head + "particle %d at %r with velocity %r in box %r (x+v: %r) became x=%r v=%r after update_position; the model "
+                "(Swarm.updatePosition, factor %r) gives x=%r v=%r" % (k, x0, rvv, bounds, zs, rx, rpv, FACTOR[alg],
+                                                                         [float(t) for t in mx], [float(t) for t in mpv]))
+    return None
+
+
 def check_step(rr, it, ans):
     """Compare one replayed iteration with the recorded one.  Returns None, 'near-tie', or (key, what)."""
     cfg, rec = rr["cfg"], rr["recs"][it]
@@ -994,41 +1041,13 @@ def check_step(rr, it, ans):
     if any(s is None for lst in (s_in, s_vel, s_pos, s_hand, s_eval, s_pb) for s in lst):
         return ("step-phases", head + "the phases of the loop did not all see the selected particles (observed order of calls %r)" % rec["order"])
     for k in range(n):
-        x0, pb0 = s_in[k]["x"], s_in[k]["bv"] or []
+        x0 = s_in[k]["x"]
         g = rec["draws"][k]["leader"]["x"] if k < len(rec["draws"]) else x0
-        # 1. velocity
-        rvv, mv = s_vel[k]["v"], m_vel[k] if k < len(m_vel) else []
-        if len(rvv) != len(mv) or any(not vclose(a, float(b), x0[i], pb0[i] if i < len(pb0) else 0.0, g[i] if i < len(g) else 0.0, bounds[i])
-                                      for i, (a, b) in enumerate(zip(rvv, mv))):
-            return ("step-velocity", head + "particle %d at %r (personal best %r, leader %r) got velocity %r from update_velocity; the model "
-                    "(khi*(w*x + c1*r1*(pbest-x) + c2*r2*(leader-x)) with the recorded draws, clamped to +-(ub-lb)/2) gives %r" % (
-                        k, x0, pb0, g, rvv, [float(t) for t in mv]))
-        for i, (lb, ub) in enumerate(bounds):
-            if i < len(rvv) and not abs(rvv[i]) <= (ub - lb) / 2.0 * (1 + 1e-12):
-                return ("step-velocity-band", head + "particle %d: velocity component %d = %r after update_velocity exceeds half the range (ub-lb)/2 = %r" % (
-                    k, i, rvv[i], (ub - lb) / 2.0))
-        # 2. position
+        res = compare_flight(head, alg, bounds, k, s_in[k], s_vel[k], s_pos[k], g, m_vel[k] if k < len(m_vel) else [], m_pos[k], m_pvel[k], rr)
+        if res is not None:
+            return res
+        rvv, rx = s_vel[k]["v"], s_pos[k]["x"]
         zs = zones_of(x0, rvv, bounds)
-        rx, rpv = s_pos[k]["x"], s_pos[k]["v"]
-        mx, mpv = m_pos[k], m_pvel[k]
-        bad = len(rx) != len(mx)
-        for i in range(min(len(rx), len(mx), len(bounds))):
-            lb, ub = bounds[i]
-            z = zs[i]
-            if z == "above":
-                okx, okv = rx[i] == ub, close(rpv[i], float(mpv[i]))
-            elif z == "below":
-                okx, okv = rx[i] == lb, close(rpv[i], float(mpv[i]))
-            elif z == "near":
-                okx, okv = pclose(rx[i], mx[i], bounds[i]), True
-                rr["near"] = rr.get("near", 0) + 1
-            else:
-                okx, okv = pclose(rx[i], mx[i], bounds[i]), rpv[i] == rvv[i]
-            bad = bad or not okx or not okv or not (lb <= rx[i] <= ub)
-        if bad:
-            return ("step-position", head + "particle %d at %r with velocity %r in box %r (x+v: %r) became x=%r v=%r after update_position; the model "
-                    "(Swarm.updatePosition, factor %r) gives x=%r v=%r" % (k, x0, rvv, bounds, zs, rx, rpv, FACTOR[alg],
-                                                                             [float(t) for t in mx], [float(t) for t in mpv]))
         # 3. turbulence: what the evaluator receives
         hx, mt = s_hand[k]["x"], m_turb[k]
         bad = len(hx) != len(mt)
@@ -1256,6 +1275,80 @@ def check_swarm_runs(ctx, rrs):
     return None
 
 
+def psoga_cfgs(ctx):
+    out = []
+    for cfg in swarm_cfgs(ctx)[:(8 if ctx.quick else 1200)]:
+        cfg = dict(cfg, algo="PSOGA", N=max(cfg["N"], 2))
+        out.append(cfg)
+    return out
+
+
+def stream_psoga_flight(ctx):
+    """PSOGA: update_velocity + update_position of every iteration of real runs against `psogaFlight`; the box, the velocity
+    band and the leader invariant on the observed run."""
+    rrs = []
+    for cfg in psoga_cfgs(ctx):
+        rr = record_swarm_or_skip(ctx, cfg)
+        if rr is not None:
+            s_prepare(rr)
+            rrs.append(rr)
+    reqs = []
+    for rr in rrs:
+        for it, rec in enumerate(rr["recs"]):
+            offs = rec["ev"].get("update_velocity:in") or []
+            reqs.append((rr, it, "c18.psoga %s|%s|%s|%s" % (rr["box"], "#".join(particle_s(s) for s in offs),
+                                                          "#".join(particle_s(s) for s in rec["leaders"]), draws_of(rr, rec))))
+    answers = ctx.lean([q[2] for q in reqs])
+    for (rr, it, _), ans in zip(reqs, answers):
+        cfg, rec = rr["cfg"], rr["recs"][it]
+        head = "PSOGA %s, iteration it=%d: " % (cfg, it)
+        res = None
+        offs = rec["ev"].get("update_velocity:in") or []
+        s_vel, s_pos = rec["ev"].get("update_velocity:out") or [], rec["ev"].get("update_position:out") or []
+        if not ans.startswith("ok"):
+            res = ("psoga-raise", head + "update_velocity and update_position completed, the model (psogaFlight) raises (the recorded leader / draws do not fit it)")
+        elif not (len(offs) == len(s_vel) == len(s_pos)):
+            res = ("psoga-phases", head + "update_velocity / update_position were not both observed on the selected particles (calls %r)" % rec["order"])
+        else:
+            f = ans[3:].split("|")
+            m_vel, m_pos, m_pvel = fr_mat(f[0]), fr_mat(f[1]), fr_mat(f[2])
+            if len(m_vel) != len(offs) and any(len(s["x"]) > 0 for s in offs):
+                res = ("psoga-size", head + "%d particles were selected, the model has %d" % (len(offs), len(m_vel)))
+            for k in range(len(offs)):
+                if res is not None:
+                    break
+                g = rec["draws"][k]["leader"]["x"] if k < len(rec["draws"]) else offs[k]["x"]
+                res = compare_flight(head, "PSOGA", cfg["bounds"], k, offs[k], s_vel[k], s_pos[k], g,
+                                     m_vel[k] if k < len(m_vel) else [], m_pos[k] if k < len(m_pos) else [], m_pvel[k] if k < len(m_pvel) else [], rr)
+        if res is None and it == len(rr["recs"]) - 1:
+            cl = run_clauses(rr)
+            if cl:
+                res = ("psoga-run", "PSOGA %s: %s" % (cfg, cl[0]))
+        if res is not None:
+            ctx.fail(res[0].replace("step-", "psoga-"), res[1], {"op": "swarmrun", "cfg": cfg, "error": res[1]})
+            return True
+        ctx.case(("psoga-flight", cfg["seed"], cfg["N"], it), nontrivial=True)
+        ctx.count("psoga_flights")
+        ctx.count("psoga_velocity_components_on_limit", sum(1 for sv in s_vel for v, (lb, ub) in zip(sv["v"], cfg["bounds"]) if abs(v) == (ub - lb) / 2.0))
+        ctx.count("psoga_position_coordinates_on_bound", sum(1 for sp in s_pos for x, (lb, ub) in zip(sp["x"], cfg["bounds"]) if x in (lb, ub)))
+        # observation (not a clause of the property): a GA child shares its feature dictionary with the selected particle
+        ev, pb = rec["ev"].get("evaluate:out") or [], rec["ev"].get("update_particle_best:out") or []
+        for a_, b_ in zip(ev, pb):
+            ctx.count("psoga_personal_best_updates_checked")
+            if a_["bc"] and b_["bc"] and a_["cs"] and skey(b_["bc"]) not in (skey(a_["bc"]), skey(a_["cs"])):
+                ctx.count("psoga_personal_best_overwritten_through_a_shared_feature_dict")
+                if dom_cs(a_["bc"], b_["bc"]):
+                    ctx.count("psoga_personal_best_overwritten_by_a_position_the_old_best_dominates")
+                if PSOGA_SHARED_FEATURES_IS_VIOLATION:
+                    ctx.fail("psoga-shared-features", "PSOGA %s, iteration it=%d: update_particle_best replaced the personal best %r of the particle at %r "
+                             "(signed costs %r) by %r, which is neither its old best nor its own new position%s (does the particle share its "
+                             "feature dictionary with a GA child?)" % (
+                                 cfg, it, a_["bc"], a_["x"], a_["cs"], b_["bc"],
+                                 " and is dominated by the old best" if dom_cs(a_["bc"], b_["bc"]) else ""), {"op": "psoga-shared", "cfg": cfg})
+                    return True
+    return False
+
+
 def record_swarm_or_skip(ctx, cfg):
     try:
         return record_swarm(cfg)
@@ -1303,13 +1396,13 @@ def run(ctx):
                         "stored for the closest evaluated position within 1e-9 relative; velocity after update_position is not compared on "
                         "coordinates where x+v is within 1e-9 relative of a bound (counted); a leader set that differs only through crowding "
                         "distances tied within rounding at the truncation cut is counted, not reported; in a run that evaluated two different "
-                        "positions closer than 1e-9 relative with different stored costs only velocities, positions and turbulence are compared (counted)"]
+                        "positions closer than 1e-12 relative with different stored costs only velocities, positions and turbulence are compared (counted)"]
     import random as _random
     state = _random.getstate()
     _random.seed(ctx.rng.getrandbits(64))      # the code under test draws from the global generator
     try:
         algs = {n: make_alg(n, [(-1.0, 2.0), (0.0, 5.0)]) for n in ALGS}
-        for part in (run_pbest, run_clamp, run_position, run_leaders, lambda c, _a: stream_swarm_runs(c)):
+        for part in (run_pbest, run_clamp, run_position, run_leaders, lambda c, _a: stream_swarm_runs(c), lambda c, _a: stream_psoga_flight(c)):
             if part(ctx, algs):
                 return
     finally:
@@ -1411,6 +1504,20 @@ def replay(ctx, rp):
                 break
         print("leader invariant after real runs:", ok)
         return ok
+    if op == "psoga-shared":
+        cfg = dict(c["cfg"])
+        cfg["bounds"] = [tuple(b) for b in cfg["bounds"]]
+        rr = record_swarm(cfg)
+        n = 0
+        for it, rec in enumerate(rr["recs"]):
+            ev, pb = rec["ev"].get("evaluate:out") or [], rec["ev"].get("update_particle_best:out") or []
+            for a_, b_ in zip(ev, pb):
+                if a_["bc"] and b_["bc"] and a_["cs"] and skey(b_["bc"]) not in (skey(a_["bc"]), skey(a_["cs"])):
+                    n += 1
+                    print("iteration %d: particle at %r with signed costs %r: personal best %r -> %r, neither its old best nor its own position%s" % (
+                        it, a_["x"], a_["cs"], a_["bc"], b_["bc"], "; the old best dominates it" if dom_cs(a_["bc"], b_["bc"]) else ""))
+        print("PSOGA run %r: %d personal bests replaced by another particle's position" % (cfg, n))
+        return n == 0
     if op == "swarmrun":
         cfg = dict(c["cfg"])
         cfg["bounds"] = [tuple(b) for b in cfg["bounds"]]
